@@ -162,13 +162,19 @@ def wiring(ctx, p, K):
         callee = p.func(f"{OU}:{util}")
         cs = wire.calls_to(p, m, callee.key)
         got = {k: norm_text(strip(v)) for k, v in wire.kw(cs[0], callee).items()} if len(cs) == 1 else {}
+        if meth == "binned_array_2d_from" and got.get("array_2d") in ("array_slim", "getattr(array, 'slim', array)", 'getattr(array, "slim", array)'):
+            # the operand in slim form, taken with a getattr default instead of try / except AttributeError
+            src = wire.inline_locals(m, wire.kw(cs[0], callee).get("array_2d"))
+            if norm_text(strip(src)).replace('"', "'") == "getattr(array, 'slim', array)":
+                got["array_2d"] = "array"
         ctx.ob(rule, f"{c.key}.{meth}", got == want, where=m, node=cs[0] if cs else m.node, construct=str(got), message=f"expected {want}")
     # binned result on the sampler's mask; the operand is taken in slim form
     m = c.lookup("binned_array_2d_from")
     rets = [r for r in wire.returns_of(m) if isinstance(r.value, ast.Call) and norm_text(r.value.func) == "Array2D"]
     bcalls = wire.calls_to(p, m, p.func(f"{OU}:binned_array_2d_from").key)
     ok = len(rets) == 1 and len(bcalls) == 1 and norm_text(wire.kw(rets[0].value).get("mask")) == "self.mask" and wire.is_value_of(m, wire.kw(rets[0].value).get("values"), bcalls[0])
-    slim = any(isinstance(n, ast.Assign) and norm_text(n.targets[0]) == "array" and norm_text(n.value) == "array.slim" for n in m.body_nodes())
+    slim = any(isinstance(n, ast.Assign) and norm_text(n.targets[0]) == "array" and norm_text(n.value) == "array.slim" for n in m.body_nodes()) \
+        or any(isinstance(n, ast.Call) and norm_text(n).replace('"', "'") == "getattr(array, 'slim', array)" for n in m.body_nodes())
     ctx.ob(rule, f"{c.key}.binned_array_2d_from:return", ok and slim, where=m, node=rets[0] if rets else m.node, construct=norm_text(rets[0].value) if rets else "", message="the binned values must be returned as an Array2D on self.mask; the operand is used in slim form")
     # array_via_func_from: func on over_sampled_grid, then binned untouched
     m = c.lookup("array_via_func_from")
@@ -193,32 +199,24 @@ def wiring(ctx, p, K):
 
 
 def passthrough(ctx, rule, p, m, grid_expr, sink, sink_kw):
-    """values = func([obj,] <grid>, ...) ; return self.<sink>(<sink_kw>=values) with nothing in between"""
+    """every path returns self.<sink>(<sink_kw>=func([obj,] <grid>, *args, **kwargs)) with nothing in between (sa/paths.py: locals substituted, starred argument tuples written out)"""
+    PS = paths.returns(paths.path_summaries(m) or [])
     calls = [c for c in m.calls() if isinstance(c.func, ast.Name) and c.func.id == "func"]
-    ok = len(calls) >= 1
-    names = set()
-    grid_local = None
-    for n in m.body_nodes():
-        if isinstance(n, ast.Assign) and isinstance(n.targets[0], ast.Name) and norm_text(n.value) == grid_expr:
-            grid_local = n.targets[0].id
-    for c in calls:
-        args = [norm_text(a) for a in c.args]
-        pos = 1 if args and args[0] in ("obj", "cls") else 0
-        ok = ok and len(args) > pos and args[pos] in (grid_expr, grid_local)
-        for n in m.body_nodes():
-            if isinstance(n, ast.Assign) and n.value is c and isinstance(n.targets[0], ast.Name):
-                names.add(n.targets[0].id)
-    rets = wire.returns_of(m)
-    sk = [r for r in rets if isinstance(r.value, ast.Call) and isinstance(r.value.func, ast.Attribute) and r.value.func.attr == sink]
-    ok = ok and len(names) == 1 and len(sk) == 1 and len(rets) == 1
-    if ok:
-        nm = names.pop()
-        ok = norm_text(wire.kw(sk[0].value).get(sink_kw)) == nm
-        # the value is not reassigned between the call and the sink
-        others = [n for n in m.body_nodes() if isinstance(n, (ast.Assign, ast.AugAssign)) and any(isinstance(t, ast.Name) and t.id == nm for t in (n.targets if isinstance(n, ast.Assign) else [n.target]))
-                  and not (isinstance(n, ast.Assign) and any(n.value is c for c in calls))]
-        ok = ok and not others
-    ctx.ob(rule, f"{m.key}:pass-through", ok, where=m, node=calls[0] if calls else m.node, construct=f"func calls {[norm_text(c)[:60] for c in calls]}",
+    ok = bool(PS)
+    det = []
+    for q in PS:
+        v = q.value
+        okq = isinstance(v, ast.Call) and isinstance(v.func, ast.Attribute) and v.func.attr == sink and paths.ptext(v.func.value) == "self" and set(paths.kwargs(v)) == {sink_kw} and not v.args
+        inner = paths.kwargs(v).get(sink_kw) if okq else None
+        okq = okq and isinstance(inner, ast.Call) and paths.ptext(inner.func) == "func"
+        if okq:
+            args = [paths.ptext(a) for a in paths.flat_args(inner)]
+            has_obj = q.holds("obj is not None")
+            want_args = (["obj"] if has_obj else []) + [grid_expr, "*args"]
+            okq = args == want_args and [paths.ptext(k.value) for k in inner.keywords if k.arg is None] == ["kwargs"] and not [k for k in inner.keywords if k.arg is not None]
+            det.append(f"func({', '.join(args)}) when obj is not None = {has_obj}")
+        ok = ok and okq
+    ctx.ob(rule, f"{m.key}:pass-through", ok, where=m, node=calls[0] if calls else m.node, construct="; ".join(det)[:200] or f"{len(PS)} returning paths",
            message=f"the user function must be evaluated on {grid_expr} and its result handed unchanged to {sink}({sink_kw}=...)")
 
 
